@@ -3,8 +3,8 @@
 usage: tools/seeds_all.py [-j N]   (patch + demo are re-confirmed; the repository test-suite is NOT re-run here, see meta.json)"""
 import json, os, subprocess, sys, concurrent.futures
 OTHER = {'C01-C': 'C03,C05,C09', 'C01-D': 'C03', 'C02-A': 'C04', 'C02-C': 'C05', 'C03-B': 'C05,C09', 'C03-C': 'C05', 'C03-D': 'C05', 'C04-C': 'C05,C09',
-         'C07-C': 'C06', 'C07-D': 'C06', 'C08-D': 'C16', 'C11-C': 'C10', 'C14-D': 'C13', 'C15-D': 'C13', 'C16-C': 'C08', 'C13-C': 'C15', 'C02-E': 'C05', 'C02-F': 'C01,C03', 'C03-F': 'C05', 'C08-E': 'C16', 'C13-F': 'C14', 'C02-G': 'C01', 'C03-H': 'C05', 'C05-H': 'C04'}
-THOROUGH = {'C07-F', 'C14-F', 'C19-E', 'C19-F'}
+         'C07-C': 'C06', 'C07-D': 'C06', 'C08-D': 'C16', 'C11-C': 'C10', 'C14-D': 'C13', 'C15-D': 'C13', 'C16-C': 'C08', 'C13-C': 'C15', 'C02-E': 'C05', 'C02-F': 'C01,C03', 'C03-F': 'C05', 'C08-E': 'C16', 'C13-F': 'C14', 'C02-G': 'C01', 'C03-H': 'C05', 'C05-H': 'C04', 'C07-T': 'C06', 'C15-Q': 'C13'}
+THOROUGH = {'C07-F', 'C14-F', 'C19-E', 'C19-F', 'C14-S'}
 J = int(sys.argv[sys.argv.index('-j') + 1]) if '-j' in sys.argv else 4
 ids = sorted(os.listdir('/verif/seeded'))
 ids = [i for i in ids if os.path.isdir('/verif/seeded/' + i)]
